@@ -494,8 +494,11 @@ def run_check(name, tier, base_seed, jobs=None, only=None):
     }
     ev = {"property_id": prop, "tier": tier, "seed": base_seed, "level": mod.LEVEL, "coverage": cov,
           "assumptions": list(getattr(mod, "ASSUMPTIONS", [])), "wall_s": round(wall, 2), "violations": violations_total}
-    os.makedirs(EVIDENCE_DIR, exist_ok=True)
-    with open(os.path.join(EVIDENCE_DIR, prop + ".json"), "w") as f:
+    # evidence describes /repo itself; a run pointed at a scratch copy (seeded-change evaluation, VERIF_REPO_ROOT) must not overwrite it
+    root = os.environ.get("VERIF_REPO_ROOT", "/repo")
+    ev_dir = EVIDENCE_DIR if os.path.realpath(root) == "/repo" else os.path.join(root, ".verif_evidence")
+    os.makedirs(ev_dir, exist_ok=True)
+    with open(os.path.join(ev_dir, prop + ".json"), "w") as f:
         json.dump(ev, f, indent=1, sort_keys=True, default=str)
     print("%s: %d runs, %d non-trivial (%d distinct), %d known-finding hits, %d new violation class(es), %.1fs"
           % (prop, agg["n"], agg["nontrivial"], len(isigs), sum(known_hits.values()), len(new_classes), wall), flush=True)
